@@ -170,6 +170,23 @@ def check_case(acc, kind, arch, params, tag=None, st=None, history=None):
                 break
     except LibRaised as e:
         bad(f"born:raised:{e.kind}", e.tb, None, detail="1-D / 2-row call form")
+    # basis states given in another dtype (samples loaded from files are often float32 / integer): an
+    # implementation may refuse them, but it must never return different numbers
+    if tag is not None and tag[0] in ("pat", "stateful"):
+        for dt in (torch.float32, torch.int64, torch.bool):
+            try:
+                sv = space.to(dt)
+                o_psi = L.cplx.numpy(call(st.psi, sv))
+                o_p = call(st.probability, sv).numpy()
+                o_a = call(st.amplitude, sv).numpy()
+                o_f = call(st.phase, sv).numpy()
+            except (LibRaised, Exception):  # noqa: BLE001
+                acc.count("non-double-input-refused")
+                continue
+            acc.count("non-double-input-accepted")
+            if not (close(o_psi, psi, 1e-12) and close(o_p, p, 1e-12) and close(o_a, amp, 1e-12) and close(o_f, phs, 1e-12)):
+                bad("born:values-depend-on-input-dtype", [o_psi, o_p], [psi, p], detail=dict(dtype=str(dt)))
+                break
     acc.outcome(sha(np.round(la - logZ, 6)))
 
 
